@@ -109,12 +109,22 @@ impl Prop for C14 {
     }
 
     fn strategy(_leg: &str, tier: Tier) -> BoxedStrategy<Case> {
-        (0..8_usize, 97..=tier.pick(300_usize, 600), 1..=40_usize, 1..=16_usize)
+        (
+            0..8_usize,
+            prop_oneof![3 => 97..=tier.pick(300_usize, 600), 1 => 200..=3100_usize],
+            1..=40_usize,
+            1..=16_usize,
+        )
             .prop_map(|(k, n, m2, cpus)| {
                 let kind = KINDS[k];
                 Case {
                     kind: kind.to_string(),
-                    n: if kind == "biclique" { n / 4 } else { n },
+                    n: match kind {
+                        "biclique" => n / 4,
+                        // complete(n) has n(n-1) arcs in four representations: capped
+                        "complete" => n.min(700),
+                        _ => n,
+                    },
                     m2,
                     cpus,
                 }
